@@ -1,5 +1,8 @@
 From Coq Require Import List NArith Bool.
 From V.Ts Require Import Model Proofs Rearm Timing Extra Exact Names Multi MultiProofs.
+From V.Mgr Require Model.
+From V.C06 Require Compose08.
+From V.Link Require C06_C08.
 Import ListNotations.
 Open Scope N_scope.
 From V.C09 Require Import Properties.
@@ -132,3 +135,35 @@ Check (C09_name_table_own_name_lookup_refuted :
   exists tbl pr f,
   NoDup (all_names tbl) /\ In pr tbl /\ In f (p_fbs pr) /\
   classify tbl f = Some true /\ classify_by_own_name tbl f = Some false).
+Check (C09_idle_close_exact_under_manager :
+  forall (L : V.Mgr.Model.limits) (xs : list V.C06.Compose08.xev) tr ka T n0,
+  V.C06.Compose08.xtrace L V.C06.Compose08.x0 xs ->
+  filter V.C06.Compose08.is_conn (map snd tr) = V.C06.Compose08.xproj xs ->
+  V.C06.Compose08.feasible_rest env0 (init ka T n0) tr = true ->
+  let s := final (init ka T n0) tr in
+  (forall k, handle_active (s_ctxs s) k = true ->
+     exists t, kfind k (s_last s) = Some t /\ kfind k (s_act s) = Some t /\
+               t <= s_now s /\ s_now s < t + s_T s) /\
+  (forall dt e p c, on_time s dt -> 0 < s_T s -> In (ODown p c) (snd (step s dt e)) ->
+     exists t, kfind (p, c) (s_act (fst (step s dt e))) = Some t /\
+               s_now (fst (step s dt e)) = t + s_T (fst (step s dt e))) /\
+  (forall c, 0 < pend_on c (s_pend s) \/ 0 < ch_held_of c (s_chans s) -> 0 < strong s c)).
+Check (C09_rearm_single_under_manager :
+  forall (L : V.Mgr.Model.limits) (xs : list V.C06.Compose08.xev) tr ka T n0 k,
+  V.C06.Compose08.xtrace L V.C06.Compose08.x0 xs ->
+  filter V.C06.Compose08.is_conn (map snd tr) = V.C06.Compose08.xproj xs ->
+  V.C06.Compose08.feasible_rest env0 (init ka T n0) tr = true ->
+  (cnt k (s_timers (final (init ka T n0) tr)) <= 1)%nat).
+Check (C09_tracked_is_active_under_manager :
+  forall (L : V.Mgr.Model.limits) (xs : list V.C06.Compose08.xev) tr ka T n0 k t,
+  V.C06.Compose08.xtrace L V.C06.Compose08.x0 xs ->
+  filter V.C06.Compose08.is_conn (map snd tr) = V.C06.Compose08.xproj xs ->
+  V.C06.Compose08.feasible_rest env0 (init ka T n0) tr = true ->
+  kfind k (s_last (final (init ka T n0) tr)) = Some t ->
+  handle_active (s_ctxs (final (init ka T n0) tr)) k = true).
+Check (C09_view_is_live_under_manager :
+  forall (L : V.Mgr.Model.limits) (xs : list V.C06.Compose08.xev) tr ka T n0 p,
+  V.C06.Compose08.xtrace L V.C06.Compose08.x0 xs ->
+  filter V.C06.Compose08.is_conn (map snd tr) = V.C06.Compose08.xproj xs ->
+  V.C06.Compose08.feasible_rest env0 (init ka T n0) tr = true ->
+  conn_ids (s_ctxs (final (init ka T n0) tr)) p = live_of p (e_live (efinal env0 tr))).
